@@ -49,15 +49,23 @@ def _option_reads(repo, fields):
         if not repo.has_mod(mn):
             continue
         m = repo.mod(mn)
-        for a in ast.walk(m.tree):
-            if isinstance(a, ast.Attribute) and a.attr in fields and isinstance(a.ctx, ast.Load):
-                base = norm(a.value)
-                if base.endswith("options") or base == "opts" or base.endswith(".options"):
-                    fn = enclosing_def(a)
-                    out.append((m, fn, a))
-            if isinstance(a, ast.Call) and isinstance(a.func, ast.Name) and a.func.id == "getattr" and len(a.args) >= 2 and norm(a.args[0]).endswith("options"):
-                fn = enclosing_def(a)
-                out.append((m, fn, a))
+        # the functions in canonical form (extracted helpers expanded at their call sites), then the module-level code
+        units = [(f, f) for f in m.funcs.values() if isinstance(f, (ast.FunctionDef, ast.AsyncFunctionDef))]
+        top = [st for st in ast.walk(m.tree) if isinstance(st, ast.stmt) and enclosing_def(st) is None and not isinstance(st, (ast.FunctionDef, ast.AsyncFunctionDef, ast.ClassDef))]
+        seen = set()
+        for root, fn in units + [(st, None) for st in top]:
+            for a in ast.walk(root):
+                if id(a) in seen:
+                    continue
+                seen.add(id(a))
+                if fn is None and enclosing_def(a) is not None:
+                    continue
+                if isinstance(a, ast.Attribute) and a.attr in fields and isinstance(a.ctx, ast.Load):
+                    base = norm(a.value)
+                    if base.endswith("options") or base == "opts" or base.endswith(".options"):
+                        out.append((m, enclosing_def(a) if fn is not None else None, a))
+                if isinstance(a, ast.Call) and isinstance(a.func, ast.Name) and a.func.id == "getattr" and len(a.args) >= 2 and norm(a.args[0]).endswith("options"):
+                    out.append((m, enclosing_def(a) if fn is not None else None, a))
     return out
 
 
